@@ -29,7 +29,7 @@ def make_transform(ck, kind):
     rng = ck.rng
     L = rng.randint(2, 8); m = rng.choice(gen.MODES5)
     w0 = gen.int_filter(rng, L); w1 = gen.int_filter(rng, L)
-    nb, c = rng.choice([(1, 2), (2, 1), (2, 2), (2, 3), (3, 2)])
+    nb, c = rng.choice([(1, 2), (2, 1), (2, 2), (2, 3), (3, 2), (1, 33), (2, 17)]) if rng.random() < 0.8 else rng.choice([(1, 33), (1, 40), (2, 17)])
     J = rng.randint(1, 3)
     if kind == 'DWT1DForward':
         N = max(2, L + rng.randint(0, 12))
@@ -154,10 +154,10 @@ def run(ck):
     st2 = rt.correspond('impl-model(dtcwt)', dtcwt_cases(ck, 120 if q else 1200, ['coldfilt', 'rowdfilt', 'colifilt', 'rowifilt', 'colfilter', 'DTCWTForward']), TABLE)
     ck.corr += [st, st2]
     for it in range(70 if q else 700):
-        oracle_linear(ck, KINDS[it % len(KINDS)])
+        rt.guard(ck, oracle_linear, ck, KINDS[it % len(KINDS)])
     if ((ck.lean is not None and not ck.lean.ok) or st.mismatches or st2.mismatches) and not ck.failures:
         for it in range(210):
-            oracle_linear(ck, KINDS[it % len(KINDS)])
+            rt.guard(ck, oracle_linear, ck, KINDS[it % len(KINDS)])
 
 
 def replay(ck, path):
